@@ -71,7 +71,8 @@ def nofloat(F, res, cg, roots):
 ENCODINGS = [
     # (what the property documents, library primitive that realises it, extra condition)
     ("integers: JSON numbers of any 128-bit size", "serde_json::Number::as_i128", None),
-    ("integers: decimal strings", "core::num::<impl i128>::from_str_radix", "radix10"),
+    # (`s.parse::<i128>()` is FromStr for i128 = from_str_radix(s, 10))
+    ("integers: decimal strings", "core::num::<impl i128>::from_str_radix || core::str::<impl str>::parse|i128", "radix10"),
     ("integers: 0x-prefixed 16-byte big-endian hex (two's complement)", "core::num::<impl i128>::from_be_bytes", None),
     ("integers: the hex form is exactly 16 bytes", "std::convert::TryFrom::try_from|[u8; 16]", None),
     ("bytes / addresses: hex", "hex::decode", None),
@@ -93,9 +94,12 @@ def encodings(F, res, cg):
         du = None
         for bi, t in mir.calls(f):
             calls.append((f, t))
-    for what, prim, cond in ENCODINGS:
-        name, _, garg = prim.partition("|")
-        hits = [(f, t) for f, t in calls if (t.get("callee") or "") == name and (not garg or garg in (t.get("gargs") or []))]
+    for what, prims, cond in ENCODINGS:
+        hits = []
+        for prim in [x.strip() for x in prims.split("||")]:
+            name, _, garg = prim.partition("|")
+            hits += [(f, t) for f, t in calls if (t.get("callee") or "") == name and (not garg or garg in (t.get("gargs") or []))]
+        name, _, garg = [x.strip() for x in prims.split("||")][0].partition("|")
         if not hits and not garg:
             # the primitive handed over as a function value (`.map(i128::from_be_bytes)`)
             for f, t in calls:
